@@ -60,7 +60,7 @@ def build_pairs(tier, seed):
     # must be; and implementation and model must agree on both
     from .. import smallprogs as SP
     from .. import declshapes as DS
-    for i, k, t in SP.stream(seed + 2, 4000 if tier == "quick" else None):
+    for i, k, t in SP.stream(seed + 2, None):
         pairs.append((i, "small:suffix", t, suffix_rename(t)))
     for i, k, t in DS.stream():
         pairs.append((i, "decl:suffix", t, suffix_rename(t)))
